@@ -17,6 +17,7 @@ MODULES = {
     "C04": "c01_odegen",
     "C14": "c14_network",
     "C15": "c14_network",
+    "C17": "c17_globals",
     "C19": "c19_solve",
 }
 
